@@ -89,7 +89,7 @@ def _pit_candidates(rng: random.Random, n_arch: int) -> List[Dict[str, Any]]:
     cands = []
     while len(cands) < 3 * n_arch:
         dim = rng.choice([1, 1, 2])
-        a = pitgen.random_arch(rng, dim=dim, max_nodes=rng.randint(2, 8), kernels=(1, 2, 3, 4, 5, 7))
+        a = pitgen.random_arch(rng, dim=dim, max_nodes=rng.randint(2, 8), kernels=(1, 2, 3, 4, 5, 6, 7, 8, 9))
         if any(nd["op"] in ("conv", "lin") and not nd["excl"] for nd in a["nodes"]):
             cands.append(norm_arch(a))
     return cands
@@ -178,6 +178,7 @@ def _key(sc):
 def _self_test(traces: List[Dict[str, Any]], verdicts: List[str]) -> int:
     """Corrupted copies of ACCEPTED traces must be rejected with the right clause (the comparison really is TLC's)."""
     muts, want = [], []
+    n_disc = n_latg = 0
     for t, v in zip(traces, verdicts):
         if v != "ok":
             continue
@@ -198,7 +199,26 @@ def _self_test(traces: List[Dict[str, Any]], verdicts: List[str]) -> int:
                 m = copy.deepcopy(t)
                 m["pairs"][0]["clo"], m["pairs"][0]["chi"] = m["pairs"][0]["chi"], m["pairs"][0]["clo"]
                 muts.append(m), want.append("C12.monotone")
-        if t["kind"] == "lat" and t["succ"] and len(muts) < 100:
+        if t["kind"] == "probe" and t["method"] == "pit" and t["disc"] and t["ev"]["ok"] and n_disc < 12:
+            # a non-keep-alive, trainable element of the discrete cost loses its gradient
+            cand = [i for i, e in enumerate(t["E"]) if e["tr"] and e["k"] in ("a", "b", "g") and e["nz"] and not e["ka"]
+                    and t["metric"] != "gap8_latency"]
+            if cand:
+                m = copy.deepcopy(t)
+                m["E"][cand[-1]]["nz"] = False
+                m["E"][cand[-1]]["cu"] = -1           # so that only the lattice clause can object
+                muts.append(m), want.append("C12.gradient")
+                n_disc += 1
+        if t["kind"] == "lat" and n_latg < 12:
+            cand = [(i, j) for i, o in enumerate(t["obs"]) if o["d"] and o["ok"] for j, e in enumerate(t["els"])
+                    if e["tr"] and e["v"] != 0 and o["nz"][j] and o["m"] != "gap8_latency"]
+            if cand:
+                i, j = cand[len(cand) // 2]
+                m = copy.deepcopy(t)
+                m["obs"][i]["nz"][j] = False
+                muts.append(m), want.append("C12.gradient")
+                n_latg += 1
+        if t["kind"] == "lat" and t["succ"] and len(muts) < 124:
             j = len(t["obs"]) - 1
             if t["succ"][0]["obs"][0]["c"] > t["obs"][0]["c"] + 100:
                 m = copy.deepcopy(t)
@@ -229,7 +249,10 @@ def run(tier: str, seed: int, replay=None) -> int:
     R.assumptions = [
         "PIT networks come from the grammar of specs/FeatGraph.tla restricted by TLC to Supported() architectures; fold_bn off",
         "costs are evaluated by plinio in float32: equal / ordered up to the tolerances stated in specs/CostDepsTrace.tla",
-        "probe mask values are drawn with |v| in [0.05,0.44] u [0.56,1.4] u {1}: away from 0 (torch.abs has derivative 0 there) and from the threshold",
+        "probe mask values are drawn with |v| in [0.05,0.44] u [0.56,0.95] u [1.05,1.8] u {0.3,0.6,1,1.5}: away from 0 (torch.abs has derivative 0 "
+        "there) and from the threshold; lattice states use the exact abstract magnitudes, elements at exactly 0 are exempt from the gradient clause",
+        "discrete cost: 'element whose increase raises the metric' is decided on the lattice by CostDeps!DiscRelevant (corner contexts of the other "
+        "elements, MaskAlgebra!Kept), and the gradient must be non-zero at every observed parameter value",
         "SuperNet / MPS use the default deterministic sampler (soft-max, no Gumbel noise, soft selection), training mode; the cost is read after a forward pass",
         "'increase raises the metric' is observed with one finite increase (|mask| + 0.6, alpha + 1.5) and a margin of 5000 units",
         "ne16_latency: architectures with kernels outside {1x1, 3x3} / non-3x3 depthwise are documented restrictions (skipped, counted)",
@@ -253,6 +276,11 @@ def run(tier: str, seed: int, replay=None) -> int:
         raise tlc.MachineryError("vacuity guard: Perturb / NewInput / Raise not all taken in CostDepsMC_deps")
     R.design("CostDepsMC", "CostDepsMC_mix_quick" if quick else "CostDepsMC_mix_thorough", workers=8)
     R.design("CostDepsMC", "CostDepsMC_bad", expect_ok=False, workers=4)      # sanity: keep-alive elements are not strict
+    # straight-through gradient of the discrete cost against MaskAlgebra: every Conv1d time mask K <= 9
+    R.design("CostDepsMC", "CostDepsMC_time_quick" if quick else "CostDepsMC_time_thorough", workers=12, timeout=5400)
+    R.design("CostDepsMC", "CostDepsMC_time_half", workers=4)                 # a constant factor in the backward pass: same support
+    for bad in ("CostDepsMC_time_clipped", "CostDepsMC_time_zeroabove", "CostDepsMC_lat_clipped"):
+        R.design("CostDepsMC", bad, expect_ok=False, workers=4)               # sanity: these backward rules lose gradients
 
     # ------------------------------------------------------------------ 2. scenarios
     scs = []
